@@ -293,7 +293,7 @@ func run(q req) resp {
 		if c.state != 2 || !(c.chanFull || c.sendSt == 3) {
 			return
 		}
-		p := ctl.take(2*time.Second, func(p *parked) bool {
+		p := ctl.take(patient(2*time.Second), func(p *parked) bool {
 			return p.opid == c.opid && (p.point == "request.got" || p.point == "request.timeout" || p.point == "request.senderr")
 		})
 		if p == nil {
@@ -329,7 +329,7 @@ func run(q req) resp {
 		f := frameFor(opid, tag)
 		under.reads <- f
 		// the read loop either misses (notify only) or parks at dispatch.send
-		p := ctl.take(2*time.Second, func(p *parked) bool { return p.point == "dispatch.miss" || p.point == "dispatch.send" })
+		p := ctl.take(patient(2*time.Second), func(p *parked) bool { return p.point == "dispatch.miss" || p.point == "dispatch.send" })
 		i := idxOf(opid)
 		if p == nil {
 			r.Hang = "reader did not reach the lookup within 2 s (blocked earlier)"
@@ -347,7 +347,7 @@ func run(q req) resp {
 	}
 	deliver := func() {
 		close(readerParked.rel)
-		p := ctl.take(time.Second, func(p *parked) bool { return p.point == "dispatch.sent" || p.point == "dispatch.dropped" })
+		p := ctl.take(patient(time.Second), func(p *parked) bool { return p.point == "dispatch.sent" || p.point == "dispatch.dropped" })
 		readerBusy = false
 		if p == nil {
 			ev(6, -1, 0, 0)
@@ -453,7 +453,7 @@ func run(q req) resp {
 				}
 				c.done <- result{tag: tag, err: err, dur: d}
 			}(a.i, c)
-			p := ctl.take(2*time.Second, func(p *parked) bool { return p.point == "request.registered" && p.opid == c.opid })
+			p := ctl.take(patient(2*time.Second), func(p *parked) bool { return p.point == "request.registered" && p.opid == c.opid })
 			if p == nil {
 				r.Hang = "caller did not reach the point after Register"
 				break
@@ -467,7 +467,7 @@ func run(q req) resp {
 			c.state = 2
 			ev(2, a.i, 0, 0)
 			// its send goroutine parks in Write
-			deadline := time.Now().Add(time.Second)
+			deadline := time.Now().Add(patient(time.Second))
 			for c.sendSt == 0 && time.Now().Before(deadline) {
 				collectWrites()
 				time.Sleep(200 * time.Microsecond)
@@ -527,7 +527,7 @@ func run(q req) resp {
 				}
 				r.Elapsed[a.i] = res.dur.Microseconds()
 				ev(8, a.i, out, res.tag)
-			case <-time.After(2 * time.Second):
+			case <-time.After(patient(2 * time.Second)):
 				r.Hang = "Request did not return after its select"
 			}
 		}
@@ -572,7 +572,7 @@ func freshRequest(tr frugal.FTransport, under *stt, ctl *controller) int {
 		}
 	}()
 	ctx := frugal.NewFContext("")
-	ctx.SetTimeout(time.Second)
+	ctx.SetTimeout(patient(time.Second))
 	opid, _ := frugal.VerifGetOpID(ctx)
 	done := make(chan int, 1)
 	go func() {
@@ -595,12 +595,21 @@ func freshRequest(tr frugal.FTransport, under *stt, ctl *controller) int {
 	select {
 	case v := <-done:
 		return v
-	case <-time.After(1500 * time.Millisecond):
+	case <-time.After(patient(1500 * time.Millisecond)):
 		return 0
 	}
 }
 
+// patient scales the harness's own wait bounds: a schedule that looked hung is run again alone with VH_PATIENCE=5
+// before it is believed (a loaded machine can make a goroutine late for a 2 s bound; a real hang stays a hang)
+var patience = 1
+
+func patient(d time.Duration) time.Duration { return d * time.Duration(patience) }
+
 func main() {
+	if v, err := strconv.Atoi(os.Getenv("VH_PATIENCE")); err == nil && v > 0 {
+		patience = v
+	}
 	logrus.SetOutput(io.Discard)
 	if len(os.Args) > 1 && os.Args[1] == "timing" {
 		if err := hx.Serve(func(q treq) tresp {
